@@ -153,7 +153,7 @@ def scenario(sc, tmproot, chooser_factory):
                 sched.SCHED.point("idle")
                 sched.SCHED.note(pt="idle")
             tw.stop_all()
-    status = sched.run_main(main, max_steps=sc.get("max_steps", 6000))
+    status = sched.run_main(main, max_steps=sc.get("max_steps", 4000))
     # ---- projection of what can be observed at the end -----------------------------------------
     nread = len(blocks)
     heard = not (energy and sc.get("uc") in (1, -1))       # channel 1 is the quiet one
